@@ -231,7 +231,15 @@ var nmea = []string{
 // GenJunk draws a run of non-RTCM data without any 0xD3 byte.
 func GenJunk(t *rt.Tape) Segment {
 	var b []byte
-	switch t.SW(3, 3, 2, 2) {
+	switch t.SW(30, 30, 20, 20, 3) {
+	case 4:
+		// a long run (longer than any plausible internal buffer: 4096, 8192)
+		n := []int{4095, 4096, 4097, 5000, 8193, 10000}[t.S(6)]
+		b = make([]byte, n)
+		seed := byte(t.S(256))
+		for i := range b {
+			b[i] = seed + byte(i*7) ^ byte(i>>8)
+		}
 	case 0:
 		n := 1 + t.S(4)
 		b = make([]byte, n)
